@@ -450,3 +450,56 @@ def check_lean(report, module, theorems, search_hint=None):
     if not allok:
         report.extra["lean_axiom_log"] = raw[-6000:]
     return allok, raw
+
+
+# ----------------------------------------------------------------------------- versioned C++ translator (C05)
+
+CPP_MAIN_VERSIONS_HEAD = r'''
+#include <fstream>
+#include <iostream>
+#include <sstream>
+#include <string>
+#include <vector>
+#include "binary/protocols.h"
+template <class R, class W, class V, class F>
+int runv(std::string const& in, std::string const& out, V ver, F copy) {
+  std::ifstream is(in, std::ios::binary);
+  std::ofstream os(out, std::ios::binary);
+  int rc = 0;
+  try {
+    R r(is);
+    W w(os, ver);
+    copy(r, w);
+    r.Close();
+    w.Close();
+  } catch (std::exception const& e) {
+    std::cerr << "EXC " << e.what() << "\n";
+    rc = 3;
+  }
+  os.flush();
+  return rc;
+}
+int main(int argc, char** argv) {
+  if (argc < 5) return 2;
+  std::string proto = argv[1], target = argv[2], in = argv[3], out = argv[4];
+  std::vector<size_t> bs;
+  for (int i = 5; i < argc; i++) bs.push_back(std::stoul(argv[i]));
+  while (bs.size() < 64) bs.push_back(1);
+'''
+
+
+def cpp_main_versions(namespace_ident, protocols, labels):
+    """translator: reads a binary stream of any listed version, writes it for `target` ("cur" or a version label)"""
+    src = CPP_MAIN_VERSIONS_HEAD
+    ns = namespace_ident
+    for name, nstreams in protocols:
+        args = "".join(f", bs[{i}]" for i in range(nstreams))
+        src += f'  if (proto == "{name}") {{\n'
+        src += f'    auto copy = [&](auto& r, auto& w) {{ r.CopyTo(w{args}); }};\n'
+        src += f'    {ns}::Version ver = {ns}::Version::Current;\n'
+        for lb in labels:
+            src += f'    if (target == "{lb}") ver = {ns}::Version::{lb};\n'
+        src += f'    return runv<{ns}::binary::{name}Reader, {ns}::binary::{name}Writer>(in, out, ver, copy);\n'
+        src += "  }\n"
+    src += "  return 2;\n}\n"
+    return src
